@@ -177,7 +177,7 @@ def check_markdown(doc):
     except (ParseError, RecipeCompileError) as e:
         lines = doc.splitlines() or [""]     # the tool counts lines the way str.splitlines does
         snippet = e.snippet.strip()
-        if not (1 <= e.line <= len(lines)) or (snippet and snippet not in lines[e.line - 1]) or (not snippet and lines[e.line - 1].strip(" \t>-") not in ("", "```", "~~~")
+        if not (1 <= e.line <= len(lines)) or (snippet and snippet not in lines[e.line - 1]) or (not snippet and lines[e.line - 1].strip().strip(" \t>-").strip() not in ("", "```", "~~~")
                                                                                         and not lines[e.line - 1].strip().startswith(("```", "~~~"))):
             return [("C07:markdown-error-names-one-line-quotes-another" + exotic_break_class(doc), "line %r quoted %r, document line is %r" % (
                 e.line, e.snippet, lines[e.line - 1] if 1 <= e.line <= len(lines) else None))]
